@@ -226,7 +226,7 @@ class NXPLL(LiteXModule):
             p_PLLPD_N           = "USED",
             p_PLLRESET_ENA      = "ENABLED",
             p_REF_INTEGER_MODE  = "ENABLED", # Ref manual has a discrepency so lets always set this value just in case
-            p_REF_MMD_DIG       = "1", # Divider for the input clock, ie 'M'
+            p_REF_MMD_DIG       = str(config["clki_div"]), # Divider for the input clock, ie 'M'
 
             i_PLLRESET          = self.reset,
             i_REFCK             = self.clkin,
